@@ -33,7 +33,12 @@ for it in range(N):
     def stack(cols):
         if not cfg["trades"]: return [A.RunOnDate("1999-01-01"), A.SelectAll(), A.WeighEqually(), A.Rebalance()]
         return [A.RunWeekly(), A.SelectThese(cols), WeighSigned(wt), A.Rebalance()]
-    sec = lambda nm: Security(nm, multiplier=cfg["mult"]) if (cfg["eager"] or cfg["mult"] != 1.0) else nm
+    kinds = {nm: int(rs.randint(3)) for nm in TICK}
+    def sec(nm):
+        if not (cfg["eager"] or cfg["mult"] != 1.0): return nm
+        if cfg["eager"] and kinds[nm] == 1: return bt.core.HedgeSecurity(nm, multiplier=cfg["mult"])
+        if cfg["eager"] and kinds[nm] == 2: return FixedIncomeSecurity(nm, multiplier=cfg["mult"])
+        return Security(nm, multiplier=cfg["mult"])
     if cfg["nested"]:
         c2 = ["b", "c"] if cfg["shared"] else ["c", "d"]
         top = Strategy("top", [A.RunMonthly(run_on_first_date=True), A.SelectAll(), A.WeighEqually(), A.Rebalance()] if cfg["trades"] else stack(["a"]),
@@ -96,12 +101,17 @@ for it in range(N):
                     got = tx["price"].loc[(d_, nm)]
                     if not close([got], [execp], 1e-7): bad("transaction-price-is-the-execution-price", ticker=nm, date=str(d_), got=float(got), want=float(execp), multiplier=mult, bidoffer=cfg["bidoffer"], holders=len(same)); break
     # 5. turnover and Herfindahl
-    o = s.outlays
+    o = pd.DataFrame({nm: sum(m.outlays for m in secs if m.name == nm) for nm in sorted({m.name for m in secs})})
+    so = s.outlays
+    for nm in o.columns:
+        if nm not in so.columns or not close(so[nm].to_numpy(), o[nm].to_numpy()): bad("outlays-aggregate-all-member-securities-per-ticker", ticker=nm, config=cfg)
     pos_o = o.where(o >= 0, 0.0).sum(axis=1) if len(o.columns) else pd.Series(0.0, index=rootv.index)
     neg_o = o.where(o < 0, 0.0).sum(axis=1).abs() if len(o.columns) else pd.Series(0.0, index=rootv.index)
     want_to = np.minimum(pos_o, neg_o) / rootv
     if not close(t.turnover.to_numpy(), want_to.to_numpy()): bad("turnover-is-min-of-buys-and-sells-over-nav", config=cfg)
     if not close(t.herfindahl_index.to_numpy(), (sw ** 2).sum(axis=1).to_numpy() if len(sw.columns) else np.zeros(len(rootv))): bad("herfindahl-is-sum-of-squared-security-weights", config=cfg)
+    if not close(t.security_weights.to_numpy(), (pd.DataFrame({nm: sum(m.values for m in secs if m.name == nm) for nm in sorted({m.name for m in secs})}).div(rootv, axis=0))[list(t.security_weights.columns)].to_numpy() if len(secs) else np.zeros((len(rootv), 0))): bad("security-weights-unchanged-by-reading-other-reports", config=cfg)
+    if not close(t.herfindahl_index.to_numpy(), (t.security_weights ** 2).sum(axis=1).to_numpy() if len(sw.columns) else np.zeros(len(rootv))): bad("herfindahl-stable-on-second-read", config=cfg)
     # 6. the Result's price series is the strategy's index
     if not close(res.prices[t.name].to_numpy(), s.prices.to_numpy()): bad("result-prices-are-the-strategy-index", config=cfg)
     # 7. replaying the transaction list reproduces positions and values (flat trees: one holder per ticker)
